@@ -25,7 +25,7 @@ func fieldKind(f string) string {
 		return "int"
 	case "U":
 		return "uint"
-	case "F":
+	case "F", "Y":
 		return "float"
 	case "T":
 		return "time"
@@ -51,7 +51,7 @@ func argBattery() []argCase {
 	}
 	ops := []string{"=", "!=", "<", "<=", ">", ">=", "~=", "==", "", "=>", "like"}
 	known := map[string]bool{"=": true, "!=": true, "<": true, "<=": true, ">": true, ">=": true, "~=": true}
-	fields := []string{"K", "A", "U", "F", "T", "E", "PX", "V", "S", "N", "Z", "W", "PY"}
+	fields := []string{"K", "A", "U", "F", "T", "E", "PX", "V", "S", "N", "Z", "W", "PY", "Y"}
 	for _, f := range fields {
 		fk := fieldKind(f)
 		for _, op := range ops {
